@@ -392,7 +392,7 @@ def write_evidence(prop, tier, seed, m, nviol, wall, known_matched, notes, incon
         "rule": rule,
         "samples": samples,
         "operations": m["ops"],
-        "buckets": dict(sorted(m["buckets"].items())[:600]),
+        "buckets": dict(sorted(m["buckets"].items())[:2500]),
         "bucket_count": len(m["buckets"]),
         "extra": m["extra"],
         "builds": m.get("builds", []),
